@@ -307,7 +307,7 @@ Theorem broadcast_delivery limit mk ns caps c m nfds l :
   forall x, In x l <-> (nfds = 0 \/ In x caps) /\
                        exists r, In r mk /\ r_owner r = x /\ spec_matches ns (abs_rule r) (Some c) None m = true.
 Proof.
-  intros Hr Hd Ht H. unfold dispatch in H. rewrite Hd, Ht in H. rewrite N.eqb_refl in H.
+  intros Hr Hd Ht H. unfold dispatch, dispatch_with in H. rewrite Hd, Ht in H. rewrite N.eqb_refl in H.
   destruct (get_recipients ns mk (Some c) None m) as [l0|] eqn:Eg; [|discriminate].
   inversion H; subst l; clear H. rewrite fan_out_filter.
   destruct (reachable_inv _ _ Hr) as [Hok _].
@@ -331,7 +331,7 @@ Theorem unicast_delivery limit mk ns caps c m nfds d a l :
   forall x, x <> a -> (In x l <-> (nfds = 0 \/ In x caps) /\
                                   exists r, In r mk /\ r_owner r = x /\ spec_matches ns (abs_rule r) (Some c) (Some a) m = true).
 Proof.
-  intros Hr Hd Hnd Ho H. unfold dispatch in H. rewrite Hd, Hnd, Ho in H.
+  intros Hr Hd Hnd Ho H. unfold dispatch, dispatch_with in H. rewrite Hd, Hnd, Ho in H.
   destruct (valid_type (m_type m)) eqn:Evt; cbn [negb] in H; [|discriminate]. split; [reflexivity|].
   destruct (fd_ok caps nfds a) eqn:Efd; cbn [negb] in H; [|discriminate]. split; [now apply fd_ok_iff|].
   destruct (get_recipients ns mk (Some c) (Some a) m) as [l0|] eqn:Eg; [|discriminate].
@@ -374,7 +374,7 @@ Qed.
 
 Theorem dispatch_total ns mk caps c m nfds : dispatch ns mk caps c m nfds <> None.
 Proof.
-  unfold dispatch. destruct (m_dest m) as [d|].
+  unfold dispatch, dispatch_with. destruct (m_dest m) as [d|].
   - destruct (bytes_eqb d S_org_freedesktop_DBus); [discriminate|].
     destruct (owner_of ns d) as [a|]; [|discriminate].
     destruct (negb (valid_type (m_type m))); [discriminate|].
